@@ -350,3 +350,61 @@ Proof.
   - specialize (H x (or_introl eq_refl)). destruct x as [[[[e m] fo] r] b]. exact H.
   - apply IH. intros y Hy. apply H. right; exact Hy.
 Qed.
+
+(* ------------------------------------------------------------------ statements in the shape Props/C08.v quotes *)
+
+Lemma serve_rpc_error_status : forall cfg e m form_ok r b f resp,
+  reply_error cfg r b = Some f ->
+  serve current_guards cfg e m form_ok r b = Done resp -> calls resp <> [] ->
+  error_page resp = true
+  /\ (c_mapper cfg (err_of_fault f) = None ->
+        status resp = match f with FCode c => to_http_status c | FPlain => 500 end)
+  /\ (forall s, c_mapper cfg (err_of_fault f) = Some s -> status resp = s).
+Proof.
+  intros cfg e m fo r b f resp Hf Hs Hc.
+  destruct (serve_rpc_error _ cfg e m fo r b f resp Hf Hs Hc) as [H1 H2].
+  split; [exact H2|]. split.
+  - intros Hn. rewrite H1. apply to_status_unmapped. exact Hn.
+  - intros s Hm. rewrite H1. apply to_status_mapped. exact Hm.
+Qed.
+
+Lemma ths_table_full : forall c, c <> 0 ->
+  to_http_status c <> 200
+  /\ (caller_caused_code c -> 400 <= to_http_status c < 500)
+  /\ (c = 8 -> to_http_status c = 429)
+  /\ (c = 14 -> to_http_status c = 503)
+  /\ (c = 1 \/ c = 4 -> to_http_status c = 504)
+  /\ (~ caller_caused_code c -> c <> 8 -> 500 <= to_http_status c < 600).
+Proof. intros c H. split; [apply ths_not_200; exact H | apply ths_table; exact H]. Qed.
+
+Lemma parse_int64_outcomes : forall s,
+  (parse_int64 s = None \/ exists z, parse_int64 s = Some z /\ in_i64 z)
+  /\ (s = [] -> parse_int64 s = None)
+  /\ (forall b r, s = b :: r -> (exists x, In x r /\ digit x = None) -> parse_int64 s = None)
+  /\ (forall b r, s = b :: r -> digit b = None -> is_plus b = false -> is_minus b = false -> parse_int64 s = None).
+Proof.
+  intros s. split; [apply parse_int64_classes|]. split; [intros ->; reflexivity|]. split.
+  - intros b r -> H. apply parse_int64_nondigit_tail; exact H.
+  - intros b r -> H1 H2 H3. apply parse_int64_nondigit_head; assumption.
+Qed.
+
+Lemma serve_non200_full : forall g cfg e m form_ok r b resp,
+  serve g cfg e m form_ok r b = Done resp ->
+  (status resp <> 200 -> error_page resp = true)
+  /\ (error_page resp = false -> status resp = 200 /\ logged resp = 200)
+  /\ logged resp = status resp.
+Proof.
+  intros g cfg e m fo r b resp H.
+  destruct (serve_non200_carries_error g cfg e m fo r b resp H) as [H1 H2].
+  split; [exact H1|]. split; [exact H2|]. eapply serve_logged_is_status; exact H.
+Qed.
+
+Lemma serve_seq_fault_never_200 : forall cfg rs,
+  sane_mapper cfg -> 1 <= c_maxr cfg <= max_i64 ->
+  Forall2 (fun x o => match x with (e, m, fo, r, b) =>
+             o <> Panic /\ (faulty cfg r b -> forall resp, o = Done resp -> calls resp <> [] -> refused resp) end)
+          rs (serve_seq current_guards cfg rs).
+Proof.
+  intros cfg rs Hm Hmax. apply serve_seq_forall. intros [[[[e m] fo] r] b] _. split; [apply serve_no_panic|].
+  intros Hf resp Hd. pose proof (serve_fault_never_200 cfg e m fo r b Hm Hmax Hf) as H. rewrite Hd in H. exact H.
+Qed.
